@@ -110,14 +110,14 @@ type c14Run struct {
 func runC14(e *Env) {
 	x := &c14Run{e: e, st: newC14Stats()}
 	e.R.Rule = "(a) seeded scripts of 4-8 clients x <=40 ops (Create/GetByJoinCode/Delete/Count) run concurrently against session.Store with join codes overridden to a 16-value space; a history counts when >= 2 operations of different clients overlapped in time (distinct by script hash); TTL-50ms rounds judged by brackets; collision histories (scripted shapes + seeded random) on a Store with a 50 ms lifetime where a Create's first drawn code belongs to a live / expired-unreaped / expired-looked-up / reaped session and the harness reaps the old holder, a history counts when >= 1 lookup got a must-find / must-fail verdict (distinct by shape / by op list); " +
-		"(b) rounds against the real thruserv (fresh server per round) = (limit configuration, scenario, burst size, prefill/variant); a round counts when it reached its verdict (distinct by that tuple); includes join-code collision rounds (dictated draws, holder state) and first-burst rounds (fresh source addresses whose very first requests are a start-barrier burst)"
+		"(b) rounds against the real thruserv (fresh server per round) = (limit configuration, scenario, burst size, prefill/variant); a round counts when it reached its verdict (distinct by that tuple); includes receiver-limit and host-left / expiry rounds after scripted histories with duplicate peer ids (same id reconnects, a receiver presents another receiver's or the host's id, the host reconnects), join-code collision rounds (dictated draws, holder state) and first-burst rounds (fresh source addresses whose very first requests are a start-barrier burst)"
 	x.partStore()
 	x.partStoreExpiry()
 	x.partStoreCollide()
 	x.partServer()
 
 	// samples: one per kind first, so that the few kept ones are diverse
-	order := []string{"history", "store-expiry", "store-collision", "collide", "first-burst-session-creates", "first-burst-ws-connects", "sessions", "receivers", "hostleft", "expiry", "msgsize", "msgrate", "wsconns", "iprate", "rate-ws-msgs", "rate-session-creates", "rate-ws-connects"}
+	order := []string{"history", "store-expiry", "store-collision", "collide", "dupid-recv", "dupid-hostleft", "first-burst-session-creates", "first-burst-ws-connects", "sessions", "receivers", "hostleft", "expiry", "msgsize", "msgrate", "wsconns", "iprate", "rate-ws-msgs", "rate-session-creates", "rate-ws-connects"}
 	for pass := 0; pass < 2; pass++ {
 		for _, k := range order {
 			if len(x.st.samples[k]) > pass {
@@ -859,6 +859,8 @@ func c14GenRounds(e *Env) []c14Round {
 	out = append(out, c14GenFirstRounds(e)...)
 	// join-code collisions with live / expired / reaped holders inside the real server (c14coll.go)
 	out = append(out, c14GenCollideRounds(e)...)
+	// receiver limit and host-left / expiry brackets under histories with duplicate peer ids (c14dup.go)
+	out = append(out, c14GenDupRounds(e)...)
 	for i := range out {
 		out[i].ID = fmt.Sprintf("c14-%04d", i)
 	}
@@ -876,7 +878,7 @@ func (x *c14Run) partServer() {
 			continue
 		}
 		cfgs[r.Cfg.Name] = true
-		if r.Kind == "expiry" || r.Kind == "collide" {
+		if r.Kind == "expiry" || r.Kind == "collide" || r.Kind == "dupid-hostleft" {
 			sleepy = append(sleepy, r)
 		} else if strings.HasPrefix(r.Kind, "rate-first-") {
 			first = append(first, r)
@@ -910,6 +912,22 @@ func (x *c14Run) partServer() {
 			e.R.Require(x.st.get("collide:decided:"+v) >= 1, fmt.Sprintf("no decided collide round with history %s", v))
 		}
 		e.R.Require(x.st.get("collide:holder_past_lifetime_and_unreaped_confirmed(second draw taken)") >= 2, "collide rounds: the window between lifetime over and reaped was hit fewer than 2 times")
+	}
+	// histories with duplicate peer ids: every scripted history was produced and judged, the receiver limit was
+	// seen refusing a fill, and both lifetime brackets were decided
+	if only == "" || strings.Contains(only, "dupid-") {
+		if only == "" || strings.Contains(","+only+",", ",dupid-recv,") {
+			for _, v := range c14DupRecvVariants {
+				e.R.Require(x.st.get("dupid-recv:decided:"+v.Name) >= 1, fmt.Sprintf("no decided receiver-limit round with the duplicate-peer-id history %s", v.Name))
+			}
+			e.R.Require(x.st.get("dupid-recv:rounds_in_which_the_limit_refused_a_fill") >= len(c14DupRecvVariants)/2, "duplicate-peer-id receiver rounds: the limit was hardly ever reached by the fill")
+		}
+		if only == "" || strings.Contains(","+only+",", ",dupid-hostleft,") {
+			for _, v := range c14DupHostVariants {
+				e.R.Require(x.st.get("dupid-host:decided:"+v.Name) >= 1, fmt.Sprintf("no decided host-left / expiry round with the duplicate-peer-id history %s", v.Name))
+			}
+			e.R.Require(x.st.get("dupid-host:must_admit_probes") >= len(c14DupHostVariants)/2 && x.st.get("dupid-host:joins_after_point") >= 40, "duplicate-peer-id lifetime rounds decided too little")
+		}
 	}
 	// per-address limiters under concurrent first requests of fresh addresses
 	if only == "" || strings.Contains(only, "rate-first-") {
@@ -988,6 +1006,10 @@ func (x *c14Run) runRound(r c14Round) {
 		x.roundRateFirst(r, srv)
 	case "collide":
 		x.roundCollide(r, srv, plan)
+	case "dupid-recv":
+		x.roundDupRecv(r, srv)
+	case "dupid-hostleft":
+		x.roundDupHost(r, srv)
 	case "msgsize":
 		x.roundMsgSize(r, srv)
 	case "msgrate":
